@@ -27,7 +27,7 @@ ASSUMPTIONS = [
     "a message is 'rejected' iff its SOME/IP header does not decode (independent decoder), or it is not an SD notification (service/method/interface version/type/return code), or the library's SD decoder raises one of the two permitted errors on its payload",
     "exceptions that the library itself logs and swallows inside its own tasks (log_exceptions) are not counted as escaping",
 ]
-BUDGET = {"quick": {"examples": 4000, "shrink": 250}, "thorough": {"examples": 400000, "shrink": 1500}}
+BUDGET = {"quick": {"examples": 12000, "shrink": 250}, "thorough": {"examples": 800000, "shrink": 1500}}
 
 
 # --------------------------------------------------------------------------- generators
@@ -349,12 +349,22 @@ def _play(case, with_junk):
 def run_live(case):
     la, sa, fa, ia = _play(case, True)
     lb, sb, fb, ib = _play(case, False)
-    require(la == lb, "C03.trace-differs", lambda: _first_diff("listener calls", la, lb))
-    require(sa == sb, "C03.transmissions-differ", lambda: _first_diff("transmissions", sa, sb))
+    # compared per stream (listener x record, destination): the relative order of two independent timers that fall
+    # on the very same virtual instant is a heap tie inside asyncio, not something the statement fixes
+    require(_streams(la, lambda x: (x[1], x[3], x[4])) == _streams(lb, lambda x: (x[1], x[3], x[4])), "C03.trace-differs",
+            lambda: _first_diff("listener calls", la, lb))
+    require(_streams(sa, lambda x: x[1]) == _streams(sb, lambda x: x[1]), "C03.transmissions-differ", lambda: _first_diff("transmissions", sa, sb))
     require(fa == fb, "C03.state-differs", lambda: f"final state with junk {fa} without {fb}")
     nontrivial = ia["rejected"] > 0 and ia["state_when_junk"]
     return ok(nontrivial, ["kind=live", f"rejected={'0' if not ia['rejected'] else '1+'}", f"state-when-junk={int(ia['state_when_junk'])}",
                            f"listener-calls={'0' if not la else '1+'}"])
+
+
+def _streams(seq, key):
+    out = {}
+    for x in seq:
+        out.setdefault(key(x), []).append(x)
+    return out
 
 
 def _first_diff(what, a, b):
